@@ -240,18 +240,20 @@ var c10Fields = core.Mon(c10, "fields", func(w *core.W, c *FieldCase) {
 	for f := range m.Callees {
 		keep[f] = true
 	}
-	restricted := val.V{K: "map"}
-	for _, e := range c.Data.M {
-		if keep[e.K] {
-			restricted.M = append(restricted.M, e)
+	// (both evaluations run over the same nested objects: one build, two top-level maps)
+	fullM := shallowCopy(builtFor(*c.Data))
+	restrM := map[string]interface{}{}
+	for k, v := range fullM {
+		if keep[k] {
+			restrM[k] = v
 		}
 	}
 	w.Count("sufficiency_pairs")
-	if len(restricted.M) < len(c.Data.M) {
+	if len(restrM) < len(fullM) {
 		w.Count("sufficiency_restricted_smaller")
 	}
-	full := evalTree(sc, *c.Data)
-	restr := evalTree(sc, restricted)
+	_, full := evalOnMap(sc, fullM)
+	_, restr := evalOnMap(sc, restrM)
 	if c.ErrClass && strings.HasPrefix(full, "ERROR") && strings.HasPrefix(restr, "ERROR") {
 		return
 	}
